@@ -27,7 +27,7 @@ func init() { core.Register(prop{}) }
 func (prop) ID() string    { return "C09" }
 func (prop) Level() string { return "exploration" }
 func (prop) Rule() string {
-	return "exhaustive: every sequence of <= 4 Collect calls over 3 event IDs x 4 levels (22 620 histories) on a fresh alert.Topics, all queries after every step; model: seeded histories of 20-60 operations on the real alert service (Collect, UpdateEvent also on unknown topics, Register/Update/Deregister handler specs of kind log/publish/aggregate with generated match expressions over level() changed() name() taskName() alertDuration() and tags, anonymous handlers, DeleteTopic followed by new events) over 3 topics, quiescent after every step; concurrent: 3-8 publishers collecting unique events on one topic with fast, slow and late/leaving handlers, EventState readers, under the race detector. " +
+	return "exhaustive: every sequence of <= 4 Collect calls over 3 event IDs x 4 levels (22 620 histories) on a fresh alert.Topics, all queries after every step; model: seeded histories of 20-60 operations on the real alert service (Collect, UpdateEvent also on unknown topics, Register/Update/Deregister handler specs of kind log/publish/aggregate with generated match expressions over level() changed() name() taskName() alertDuration() and tags, anonymous handlers, DeleteTopic followed by new events, CloseTopic followed by new events: the topic returns from the store) over 3 topics, quiescent after every step; concurrent: 3-8 publishers collecting unique events on one topic with fast, slow and late/leaving handlers, EventState readers, under the race detector. " +
 		"Oracles: TopicState level == max level of the reference event map, TopicStates(pattern, min) and EventStates(topic, min) == reference filter, EventState == last state; every handler receives exactly the events its match admits while it is registered, once, in order, with PreviousLevel == level of the preceding event of that ID on that topic; published events reach the target topic's handlers once; aggregate counts sum to the events consumed; nothing reaches handlers of other topics; concurrent: per-publisher FIFO at every handler, exactly-once, previous-state links per ID form one chain, per (topic,id) porcupine register linearizability of Collect (write) / EventState (read), quiescent MaxLevel == max. " +
 		"Non-trivial: a history whose events changed the topic level at least twice and were delivered to >= 1 handler / a concurrent run with >= 3 publishers and >= 100 events"
 }
@@ -443,6 +443,9 @@ type modelState struct {
 	hist   []string
 	events map[string]map[string]alert.Level // topic -> id -> level (nil topic = unknown)
 	closed map[string]bool
+	// stored mirrors the topic store: what a closed topic comes back with (non-OK collected
+	// events and every UpdateEvent; a collected OK removes the entry)
+	stored map[string]map[string]alert.Level
 	hs     map[string]*refHandler // key topic/id
 	order  []string               // registration order per topic matters for nothing observable
 	seq    int
@@ -457,8 +460,24 @@ func (m *modelState) fail(kind, key, format string, a ...interface{}) {
 
 // collect applies a collect to the reference: state update + expected deliveries, recursively for publish.
 func (m *modelState) refCollect(e refEvent, depth int) {
+	if m.closed[e.topic] {
+		// the first event after CloseTopic restores the topic from the store
+		m.closed[e.topic] = false
+		m.events[e.topic] = map[string]alert.Level{}
+		for id, l := range m.stored[e.topic] {
+			m.events[e.topic][id] = l
+		}
+	}
 	if m.events[e.topic] == nil {
 		m.events[e.topic] = map[string]alert.Level{}
+	}
+	if m.stored[e.topic] == nil {
+		m.stored[e.topic] = map[string]alert.Level{}
+	}
+	if e.level == alert.OK {
+		delete(m.stored[e.topic], e.id)
+	} else {
+		m.stored[e.topic][e.id] = e.level
 	}
 	prev, had := m.events[e.topic][e.id]
 	if !had {
@@ -518,7 +537,7 @@ func runModel(x *core.Ctx, r *core.Rng) {
 	}
 	defer env.Close()
 	svc := env.Alert
-	m := &modelState{x: x, svc: svc, events: map[string]map[string]alert.Level{}, closed: map[string]bool{}, hs: map[string]*refHandler{}}
+	m := &modelState{x: x, svc: svc, events: map[string]map[string]alert.Level{}, closed: map[string]bool{}, stored: map[string]map[string]alert.Level{}, hs: map[string]*refHandler{}}
 	m.sub = fmt.Sprintf("model seed=%d/%d", x.Case.Seed, r.Intn(1<<30))
 	if !x.Announce(m.sub) {
 		return
@@ -601,7 +620,7 @@ func runModel(x *core.Ctx, r *core.Rng) {
 	}
 
 	for op := 0; op < nops; op++ {
-		switch k := r.Intn(20); {
+		switch k := r.Intn(21); {
 		case k < 9: // collect
 			t := topics[r.Intn(2)] // direct collects on T1/T2; T3 only receives publications
 			if r.Chance(0.15) {
@@ -633,6 +652,10 @@ func runModel(x *core.Ctx, r *core.Rng) {
 				m.events[t] = map[string]alert.Level{}
 			}
 			m.events[t][id] = l
+			if m.stored[t] == nil {
+				m.stored[t] = map[string]alert.Level{}
+			}
+			m.stored[t][id] = l
 			perr := callUpdate(svc, t, alert.EventState{ID: id, Level: l, Message: "upd", Time: t0})
 			if perr != "" {
 				m.fail("update-event-panic", "UpdateEvent panicked", "UpdateEvent(%s, %s): %s", t, id, perr)
@@ -671,7 +694,7 @@ func runModel(x *core.Ctx, r *core.Rng) {
 				continue
 			case kk < 6:
 				h.kind = "log"
-				h.path = filepath.Join(scratch, h.id+".log")
+				h.path = filepath.Join(scratch, t+"-"+h.id+".log")
 				spec.Kind = "log"
 				spec.Options = map[string]interface{}{"path": h.path}
 			case kk < 9:
@@ -810,8 +833,37 @@ func runModel(x *core.Ctx, r *core.Rng) {
 			logf("DeleteTopic(%s)", t)
 			svc.DeleteTopic(t)
 			delete(m.events, t)
+			delete(m.stored, t)
+			m.closed[t] = false
 			for kx, h := range m.hs {
 				// anonymous handlers belong to the deleted topic object (unspecified afterwards)
+				if h.topic == t && h.kind == "anon" {
+					if !m.checkHandler(kx, h) {
+						return
+					}
+					delete(m.hs, kx)
+				}
+			}
+			addProbe(t)
+		case k < 18: // close a topic (what stopping its task does): it comes back from the store with the next event
+			t := topics[r.Intn(3)]
+			if !quiesce() {
+				return
+			}
+			if !m.checkState() {
+				return
+			}
+			logf("CloseTopic(%s)", t)
+			if err := svc.CloseTopic(t); err != nil {
+				m.fail("close-topic-error", "CloseTopic returned an error", "%v", err)
+				return
+			}
+			m.x.Count("topics_closed", 1)
+			if m.events[t] != nil {
+				m.closed[t] = true
+			}
+			for kx, h := range m.hs {
+				// anonymous handlers belong to the closed topic object
 				if h.topic == t && h.kind == "anon" {
 					if !m.checkHandler(kx, h) {
 						return
